@@ -31,6 +31,10 @@ type c14Case struct {
 	// kind "bound": Distinct topics are published once each, then the first Repeat of them again
 	Distinct int `json:"distinct,omitempty"`
 	Repeat   int `json:"repeat,omitempty"`
+	// kind "out": a retained message on topic Pre (0: none), published before the subscriber arrives by a 3.1.1 (or,
+	// PreV5, a 5.0) client: the subscriber is sent it first, and what it binds or does not bind counts like any other
+	Pre   int  `json:"pre,omitempty"`
+	PreV5 bool `json:"prev5,omitempty"`
 }
 
 type c14Obs struct {
@@ -74,6 +78,10 @@ func (p *c14Prop) Gen(r *Rng, i int, tier string) interface{} {
 			if r.Chance(12) {
 				c.Exp = append(c.Exp, k)
 			}
+		}
+		if r.Chance(30) {
+			c.Pre = 1 + r.Intn(distinct)
+			c.PreV5 = r.Chance(30)
 		}
 		return c
 	}
@@ -172,6 +180,26 @@ func (p *c14Prop) Run(ci interface{}) interface{} {
 		ver := mqttp.ProtocolV311
 		if c.V5 {
 			ver = mqttp.ProtocolV50
+		}
+		if c.Pre > 0 {
+			pv := mqttp.ProtocolV311
+			if c.PreV5 {
+				pv = mqttp.ProtocolV50
+			}
+			rc := b.Dial()
+			if _, err := rc.Connect(ConnectOpts{ID: "pre", Ver: pv, Clean: true}); err != nil {
+				obs.Err = "pre: " + err.Error()
+				return obs
+			}
+			tp := fmt.Sprintf("al/%d", c.Pre)
+			_ = rc.Send(mkPublish(pv, tp, []byte{200}, 0, true, 0))
+			dl := time.Now().Add(3 * time.Second)
+			for time.Now().Before(dl) {
+				if rr, _ := b.Topics.Retained(tp); len(rr) == 1 {
+					break
+				}
+				time.Sleep(2 * time.Millisecond)
+			}
 		}
 		sc := b.Dial()
 		if _, err := sc.Connect(ConnectOpts{ID: "sub", Ver: ver, Clean: true, AliasMax: uint16(c.Max)}); err != nil {
@@ -349,6 +377,9 @@ func (p *c14Prop) Coq(ci interface{}, oi interface{}) string {
 		ts := make([]string, len(c.Topics))
 		for i, t := range c.Topics {
 			ts[i] = fmt.Sprintf("(%s, %s)", cN(uint64(t)), cBool(isExp[i]))
+		}
+		if c.Pre > 0 {
+			ts = append([]string{fmt.Sprintf("(%s, false)", cN(uint64(c.Pre)))}, ts...)
 		}
 		ob := make([]string, len(o.Out))
 		for i, x := range o.Out {
